@@ -36,6 +36,7 @@ from .datatype    import HcurlSpaceType, H1SpaceType, L2SpaceType, HdivSpaceType
 from .derivatives import dx, dy, dz, DifferentialOperator
 from .derivatives import _partial_derivatives
 from .derivatives import get_atom_derivatives, get_index_derivatives_atom
+from .derivatives import get_index_derivatives, get_index_logical_derivatives
 from .derivatives import _logical_partial_derivatives
 from .derivatives import get_atom_logical_derivatives, get_index_logical_derivatives_atom
 from .derivatives import LogicalGrad_1d, LogicalGrad_2d, LogicalGrad_3d
@@ -1375,26 +1376,36 @@ class SymbolicExpr(CalculusFunction):
         elif isinstance(expr, _partial_derivatives):
             atom = get_atom_derivatives(expr)
             indices = get_index_derivatives_atom(expr, atom)
+            outer = code
             code = None
             if indices:
-                index = indices[0]
+                # derivatives buried in the atom (below a logical derivative)
+                # are named with the atom, not with this chain
+                inner = get_index_derivatives(atom)
+                index = {k: n - inner[k] for k,n in indices[0].items()}
                 code = ''
                 index =dict(sorted(index.items()))
 
                 for k,n in list(index.items()):
                     code += k*n
+                if outer:
+                    code = '{code}_{outer}'.format(code=code, outer=outer)
             return cls.eval(atom, code=code)
 
         elif isinstance(expr, _logical_partial_derivatives):
             atom = get_atom_logical_derivatives(expr)
             indices = get_index_logical_derivatives_atom(expr, atom)
+            outer = code
             code = None
             if indices:
-                index = indices[0]
+                inner = get_index_logical_derivatives(atom)
+                index = {k: n - inner[k] for k,n in indices[0].items()}
                 code = ''
                 index = dict(sorted(index.items()))
                 for k,n in list(index.items()):
                     code += k*n
+                if outer:
+                    code = '{code}_{outer}'.format(code=code, outer=outer)
             return cls.eval(atom, code=code)
 
         elif isinstance(expr, Mapping):
